@@ -492,6 +492,7 @@ def runOp (j : Json) : E Json := do
       | _ => runOpK (K := Expc Rat) op j)
   | "Boolean" => runOpK (K := BoolW) op j
   | "MaxTimes" => runOpK (K := MaxT) op j
+  | "Lang" => runOpK (K := LangW) op j
   | _ => throw s!"unknown semiring {R}"
 
 end Genlm
